@@ -205,10 +205,10 @@ theorem coherent_stack (s s' : St) (d : Dm) (h : Coherent s) (ht : TimeOk s)
   | T =>
     simp at hs
     subst hs
-    have hfr : frame (stackPre s Dm.T) = { frame s with nT := s.nT + (opCopy s).nT } := by
+    have hfr : frame (stackPre s (opCopy s) Dm.T) = { frame s with nT := s.nT + (opCopy s).nT } := by
       simp [stackPre, frame_copyVarsInto]
       rfl
-    have htp : (stackPre s Dm.T).tflag = some (s.varlist.length, rows ++ rows2) := by
+    have htp : (stackPre s (opCopy s) Dm.T).tflag = some (s.varlist.length, rows ++ rows2) := by
       simp [stackPre, tflag_copyVarsInto, htf, htf2]
     have e := congrArg Frame.nT hfr
     have e2 := congrArg Frame.nL hfr
@@ -231,11 +231,11 @@ theorem coherent_stack (s s' : St) (d : Dm) (h : Coherent s) (ht : TimeOk s)
   | L =>
     simp at hs
     subst hs
-    have hfr : frame (stackPre s Dm.L) =
+    have hfr : frame (stackPre s (opCopy s) Dm.L) =
         { frame s with nL := s.nL + (opCopy s).nL, vglvls := s.vglvls ++ (opCopy s).vglvls.drop 1 } := by
       simp only [stackPre, beq_self_eq_true, if_true, frame_setVglvls, frame_copyVarsInto]
       rfl
-    have htp : (stackPre s Dm.L).tflag = some (s.varlist.length, rows) := by
+    have htp : (stackPre s (opCopy s) Dm.L).tflag = some (s.varlist.length, rows) := by
       simp [stackPre, tflag_copyVarsInto, htf]
     have e := congrArg Frame.nT hfr
     have e2 := congrArg Frame.nL hfr
@@ -556,6 +556,87 @@ theorem coherent_slice (s s' : St) (kw : Kw) (h : Coherent s) (ht : TimeOk s)
     rw [← htf'.2]
     exact ⟨hlen, hhead⟩
 
+/-- what `sliceDimensions` guarantees about time and levels, whatever is still listed afterwards -/
+theorem slice_spec (s s' : St) (kw : Kw) (h : Coherent s) (ht : TimeOk s) (hs : opSlice s kw = some s') :
+    GoodFlag s'.sdate s'.stime ∧ s'.vglvls.length = s'.nL + 1 ∧
+    ∃ w rows, s'.tflag = some (w, rows) ∧ rows.length = s'.nT ∧ ∀ r ∈ rows.head?, r = (s'.sdate, s'.stime) := by
+  obtain ⟨it, il, ir, ic, ip, hit, hil, _, _, _, rfl⟩ := opSlice_some s s' kw hs
+  have hv := h.2.2.2.2.2.2
+  obtain ⟨hg, rows, _, htp, hlen, hhead⟩ := slicePre_time s kw it il ir ic ip h ht hit
+  obtain ⟨_, cT, cL, _, _, _, cvg, csd, cst, _⟩ := core_eq (core_updatemeta (slicePre s it il ir ic ip) hg)
+  have e2 : (slicePre s it il ir ic ip).nL = newLen s.nL il :=
+    congrArg Frame.nL (frame_copyVarsInto _ _ _)
+  have e3 : (slicePre s it il ir ic ip).vglvls = selLevels il s.vglvls := rfl
+  refine ⟨by rw [csd, cst]; exact hg, ?_, ?_⟩
+  · rw [cvg, cL, e3, e2]
+    cases il with
+    | none => exact hv
+    | some i =>
+      obtain ⟨hne, hlt⟩ := idxOf_some s.nL kw.l i hil
+      simp only [selLevels, newLen]
+      exact sliceLevels_length s.vglvls i s.nL hv hne hlt
+  · obtain ⟨w, rows', h1, h2, h3⟩ := tflag_updatemeta (slicePre s it il ir ic ip) hg (by
+      intro w rows' htf'
+      rw [htp] at htf'
+      simp only [Option.some.injEq, Prod.mk.injEq] at htf'
+      rw [← htf'.2]
+      exact ⟨hlen, hhead⟩)
+    exact ⟨w, rows', h1, by rw [cT]; exact h2, by rw [csd, cst]; exact h3⟩
+
+/-- a window that selects something leaves at least one step -/
+theorem slice_nT_pos (s s' : St) (w : Win) (h : Coherent s) (ht : TimeOk s)
+    (hs : opSlice s { t := some w } = some s') : 1 ≤ s'.nT := by
+  obtain ⟨it, il, ir, ic, ip, hit, _, _, _, _, rfl⟩ := opSlice_some s s' _ hs
+  obtain ⟨hg, _⟩ := slicePre_time s _ it il ir ic ip h ht hit
+  obtain ⟨_, cT, _⟩ := core_eq (core_updatemeta (slicePre s it il ir ic ip) hg)
+  have e : (slicePre s it il ir ic ip).nT = newLen s.nT it :=
+    congrArg Frame.nT (frame_copyVarsInto _ _ _)
+  rw [cT, e]
+  cases it with
+  | none => simp [idxOf] at hit; split at hit <;> simp at hit
+  | some i =>
+    obtain ⟨hne, _⟩ := idxOf_some s.nT (some w) i hit
+    simp only [newLen]
+    exact List.length_pos_iff.mpr hne
+
+/-- `self[k:].stack(self[:k], 'TSTEP')`: files stacked against the order of time.  The result keeps the rows in the order
+given, so it starts with the first flag of the receiver: SDATE/STIME stay those of the receiver. -/
+theorem coherent_restack (s s' : St) (k : Nat) (h : Coherent s) (ht : TimeOk s)
+    (hs : opRestack s k = some s') (hn : 1 ≤ s'.varlist.length) : Coherent s' := by
+  unfold opRestack at hs
+  split at hs
+  · rename_i later earlier hl he
+    simp only [Option.some.injEq] at hs
+    subst hs
+    obtain ⟨hg1, hv1, w1, rows1, htf1, hl1, hh1⟩ := slice_spec s later _ h ht hl
+    obtain ⟨_, _, w2, rows2, htf2, hl2, _⟩ := slice_spec s earlier _ h ht he
+    have hpos := slice_nT_pos s later _ h ht hl
+    have hfr : frame (stackPre later earlier Dm.T) = { frame later with nT := later.nT + earlier.nT } := by
+      simp [stackPre, frame_copyVarsInto]
+      rfl
+    have htp : (stackPre later earlier Dm.T).tflag = some (w1, rows1 ++ rows2) := by
+      simp [stackPre, tflag_copyVarsInto, htf1, htf2]
+    have e := congrArg Frame.nT hfr
+    have e2 := congrArg Frame.nL hfr
+    have e3 := congrArg Frame.vglvls hfr
+    have e4 := congrArg Frame.sdate hfr
+    have e5 := congrArg Frame.stime hfr
+    simp only [frame] at e e2 e3 e4 e5
+    refine finish _ hn ?_ ?_ ?_
+    · rw [e3, e2]; exact hv1
+    · rw [e4, e5]; exact hg1
+    · intro w rows' htf'
+      rw [htp] at htf'
+      simp only [Option.some.injEq, Prod.mk.injEq] at htf'
+      rw [e, e4, e5, ← htf'.2]
+      refine ⟨by simp [hl1, hl2], ?_⟩
+      intro r hr
+      cases rows1 with
+      | nil => simp at hl1; omega
+      | cons a as => exact hh1 r (by simpa using hr)
+  · cases hs
+
+
 /-- **`updatemeta()` establishes the property** (re-exported): see `Ioapi.coherent_updatemeta` -/
 theorem coherent_updatemeta (p : St) (hn : 1 ≤ (getVarlist p).varlist.length)
     (hv : p.vglvls.length = p.nL + 1) (hstart : GoodFlag p.sdate p.stime)
@@ -585,6 +666,7 @@ theorem coherent_step (s s' : St) (op : Op) (h : Coherent s) (ht : TimeOk s) (hs
     subst hs
     exact coherent_mask s h ht hn
   | stack d => exact coherent_stack s s' d h ht hs hn
+  | restack k => exact coherent_restack s s' k h ht hs hn
   | interp lv => exact coherent_interp s s' lv h ht hs hn
 
 /-- the states an operation sequence goes through (none when an operation raises) -/
